@@ -315,6 +315,9 @@ def apply(mid: str, m: dict, i: int):
         r["appearance"] = "search('sfile')"
         S.append(dict(type=f"select_one {lst}", name="plain_reader", label="PR"))
         return [r["name"], lst]
+    if mid == "choice_extra_column_translated":
+        C[0]["geometry::fr"] = "1 2"
+        return ["geometry"]
     if mid == "loop_without_list":
         S.extend([dict(type="begin loop", name="lp", label="LP"), dict(type="text", name="lq", label="x"), dict(type="end loop")])
         return []
